@@ -138,6 +138,8 @@ pub struct GenCfg {
     pub allow_named: bool,
     pub allow_modifiers: bool,
     pub wide_alphabet: bool,
+    /// C04: make the first term of the pattern one that yields an interesting start predicate.
+    pub first_term_bias: bool,
 }
 
 impl Default for GenCfg {
@@ -150,6 +152,7 @@ impl Default for GenCfg {
             allow_named: true,
             allow_modifiers: true,
             wide_alphabet: true,
+            first_term_bias: false,
         }
     }
 }
@@ -176,8 +179,50 @@ impl<'a> Gen<'a> {
         Gen { rng, flags, cfg, groups: 0, names: vec![], fresh: 0 }
     }
 
+    /// A first term whose set of possible first bytes is interesting: case partners with
+    /// different lead bytes, string alternatives, small classes, literal prefixes.
+    fn prefix_term(&mut self) -> Node {
+        let partners: &[u32] = &['k' as u32, 'K' as u32, 0x212A, 's' as u32, 'S' as u32, 0x17F, 0xE9, 0xC9, 0xDF, 0x1E9E, 0x10400, 0x10428, 0x3C3, 0x3A3, 'a' as u32];
+        match self.rng.below(6) {
+            0 if self.flags.v => {
+                let n = self.rng.range(1, 3);
+                let mut strs = vec![];
+                for _ in 0..n {
+                    let l = self.rng.range(1, 3);
+                    strs.push((0..l).map(|_| *self.rng.pick(partners)).collect());
+                }
+                let mut items = vec![ClassItem::Q(strs)];
+                if self.rng.chance(1, 2) {
+                    items.push(ClassItem::C(*self.rng.pick(partners)));
+                }
+                Node::VClass(false, VExpr::Union(items))
+            }
+            1 => {
+                let n = self.rng.range(1, 3);
+                let items: Vec<ClassItem> = (0..n).map(|_| ClassItem::C(*self.rng.pick(partners))).collect();
+                if self.flags.v { Node::VClass(false, VExpr::Union(items)) } else { Node::Class(false, items) }
+            }
+            2 => Node::Cat((0..self.rng.range(1, 4)).map(|_| Node::Char(*self.rng.pick(partners))).collect()),
+            3 => Node::Alt((0..self.rng.range(2, 3)).map(|_| Node::Char(*self.rng.pick(partners))).collect()),
+            4 => {
+                let c = Node::Char(*self.rng.pick(partners));
+                self.quantifier(c)
+            }
+            _ => Node::Char(*self.rng.pick(partners)),
+        }
+    }
+
     pub fn pattern(&mut self) -> Node {
         let d = self.cfg.max_depth;
+        if self.cfg.first_term_bias && self.rng.chance(2, 3) {
+            let first = self.prefix_term();
+            let rest = self.alternative(d.saturating_sub(1));
+            let mut n = Node::Cat(vec![first, rest]);
+            let total = self.groups;
+            let names = self.names.clone();
+            fixup(&mut n, total, &names, self.rng);
+            return n;
+        }
         let mut n = self.disjunction(d);
         let total = self.groups;
         let names = self.names.clone();
@@ -933,21 +978,34 @@ pub fn sample(n: &Node, rng: &mut Rng, icase: bool, caps: &mut Vec<Option<Vec<u3
         Node::Esc(x) => sample_item(&ClassItem::Esc(*x), rng, out),
         Node::Prop(..) => out.push(*rng.pick(ALPHABET)),
         Node::Class(neg, items) => {
+            let st = out.len();
             if *neg || items.is_empty() {
                 out.push(*rng.pick(ALPHABET))
             } else {
                 let it = rng.pick(items).clone();
                 sample_item(&it, rng, out)
             }
+            if icase && rng.chance(1, 2) {
+                for k in st..out.len() {
+                    out[k] = swap_case(out[k], rng);
+                }
+            }
         }
         Node::VClass(neg, e) => {
+            let st = out.len();
             let items = match e {
                 VExpr::Union(x) | VExpr::Inter(x) | VExpr::Sub(x) => x,
             };
             if *neg || items.is_empty() {
                 out.push(*rng.pick(ALPHABET))
             } else {
-                sample_item(&items[0].clone(), rng, out)
+                let it = rng.pick(items).clone();
+                sample_item(&it, rng, out)
+            }
+            if icase && rng.chance(1, 2) {
+                for k in st..out.len() {
+                    out[k] = swap_case(out[k], rng);
+                }
             }
         }
         _ => {}
